@@ -243,6 +243,9 @@ impl<'a> Context<'a> {
         }
       }
       let Some(range) = diagnostic.range.as_ref() else {
+        // A diagnostic without a range is about the whole file: no line-level
+        // directive can apply to it, so it is kept.
+        filtered.push(diagnostic);
         continue;
       };
 
